@@ -8,33 +8,34 @@ import (
 
 // GenOpts steer grammar generation.
 type GenOpts struct {
-	Profile     int
-	MaxProds    int
-	Budget      int  // expression nodes per production
-	Depth       int  // nesting depth
-	NoNegLook   bool // C13: no ~ and no lookahead groups
-	NamesElided bool // the grammar may reference the elided token types
-	TokKinds    bool // allow lexer.Token / []lexer.Token fields
-	NoInt       bool
-	Unions      bool
-	SharePrefix int // out of 10: how often the next alternative is a variation of the previous one
-	CaptureBias int // out of 10: how often a term is wrapped in a capture
-	SubBias     int // weight of @@ among terms
-	AllowBang   bool
-	ForcePos    bool // every production carries Pos, EndPos and Tokens
+	Profile      int
+	MaxProds     int
+	Budget       int  // expression nodes per production
+	Depth        int  // nesting depth
+	NoNegLook    bool // C13: no ~ and no lookahead groups
+	NamesElided  bool // the grammar may reference the elided token types
+	TokKinds     bool // allow lexer.Token / []lexer.Token fields
+	NoInt        bool
+	Unions       bool
+	SharePrefix  int // out of 10: how often the next alternative is a variation of the previous one
+	CaptureBias  int // out of 10: how often a term is wrapped in a capture
+	SubBias      int // weight of @@ among terms
+	AllowBang    bool
+	ForcePos     bool // every production carries Pos, EndPos and Tokens
+	AllowLeftRec bool // C08: place @@ anywhere, do not filter left-recursive grammars
 }
 
 type genState struct {
 	r        *mon.RNG
 	o        *GenOpts
 	g        *Grammar
-	n        int             // number of productions
-	declNull []bool          // declared "may be nullable"
-	terms    []Term          // terminal pool
-	lits     []Term          // terminals usable as literals
-	refs     []string        // referencable token types
-	unionMin map[string]int  // smallest member index
-	valEdge  map[int][]int   // by-value field graph
+	n        int            // number of productions
+	declNull []bool         // declared "may be nullable"
+	terms    []Term         // terminal pool
+	lits     []Term         // terminals usable as literals
+	refs     []string       // referencable token types
+	unionMin map[string]int // smallest member index
+	valEdge  map[int][]int  // by-value field graph
 }
 
 func pname(id string, i int) string { return fmt.Sprintf("%sP%d", id, i) }
@@ -49,7 +50,7 @@ func Generate(r *mon.RNG, id string, o *GenOpts) *Grammar {
 		if a.BugClass() != "" {
 			continue
 		}
-		if lr, _ := a.LeftRecursive(); lr {
+		if lr, _ := a.LeftRecursive(); lr && !o.AllowLeftRec {
 			continue
 		}
 		return g
@@ -415,6 +416,9 @@ func (pc *prodGen) subTarget(consumed bool) string {
 	s := pc.s
 	r := s.r
 	var cand []string
+	if s.o.AllowLeftRec {
+		consumed = true
+	}
 	for i := 0; i < s.n; i++ {
 		if consumed || i > pc.idx {
 			cand = append(cand, pname(s.g.ID, i))
